@@ -32,16 +32,21 @@ class Arch {
 
  private:
   Rat _v;
+  // every object carries its own serial number, which takes no part in any operation: two equal scalars never have
+  // the same object representation, so code that compares, hashes or copies scalars bytewise instead of through the
+  // documented operations is exposed
+  unsigned long long _serial = next_serial();
+  static unsigned long long next_serial() { static unsigned long long n = 0x5EED0000ull; return ++n; }
   struct FromRat {};
   Arch(FromRat, Rat v) : _v(std::move(v)) {}
 
  public:
   // a default-constructed scalar has NO documented value: poison it, so that code relying on T() == 0 is exposed
   Arch() : _v(Rat(boost::multiprecision::cpp_int("982451653"), boost::multiprecision::cpp_int("1000003"))) {}
-  Arch(const Arch &) = default;
-  Arch(Arch &&) = default;
-  Arch &operator=(const Arch &) = default;
-  Arch &operator=(Arch &&) = default;
+  Arch(const Arch &o) : _v(o._v) {}
+  Arch(Arch &&o) noexcept : _v(std::move(o._v)) {}
+  Arch &operator=(const Arch &o) { _v = o._v; return *this; }
+  Arch &operator=(Arch &&o) noexcept { _v = std::move(o._v); return *this; }
   template <typename I, std::enable_if_t<std::is_integral_v<I>, bool> = true>
   explicit Arch(I i) : _v(static_cast<long long>(i)) {
     if constexpr (std::is_unsigned_v<I>) {
